@@ -7,6 +7,7 @@ import (
 	"net"
 	"net/http"
 	"net/http/httptest"
+	"sync/atomic"
 	"time"
 
 	"github.com/emicklei/go-restful"
@@ -130,7 +131,6 @@ func newIPAMEnv(o ipamEnvOpts) (*ipamEnv, error) {
 	e.dyn = dynfake.NewSimpleDynamicClientWithCustomListKinds(runtime.NewScheme(), listKinds)
 	e.ctx = ipamcontext.NewIPAMContext(e.kube, e.gcli, e.ext, e.dyn)
 	e.stop = make(chan struct{})
-	e.ctx.StartInformers(e.stop)
 
 	var conf schedulerplugin.Conf
 	if !o.configMapMode {
@@ -143,6 +143,9 @@ func newIPAMEnv(o ipamEnvOpts) (*ipamEnv, error) {
 	if err != nil {
 		return nil, err
 	}
+	// same order as server.Start: the plugin registers its FloatingIP reservation handler first, then the informers
+	// start (context.CreateTestIPAMContext starts them before, which leaves the FloatingIP informer unstarted)
+	e.ctx.StartInformers(e.stop)
 	if o.cloudProvider {
 		e.plugin.VerifSetCloudProvider(okCloudProvider{})
 	}
@@ -227,6 +230,8 @@ func (e *ipamEnv) mountAPI() {
 	e.container.Add(ws)
 }
 
+var barrierTimeouts int64
+
 // waitFor is a harness barrier (informer caches are asynchronous); it never decides anything.
 func waitFor(cond func() bool) bool {
 	deadline := time.Now().Add(3 * time.Second)
@@ -235,6 +240,7 @@ func waitFor(cond func() bool) bool {
 			return true
 		}
 		if time.Now().After(deadline) {
+			atomic.AddInt64(&barrierTimeouts, 1)
 			return false
 		}
 		if i < 50 {
@@ -281,14 +287,14 @@ func (e *ipamEnv) probe(pod *corev1.Pod, step func(string)) {
 	if pod != nil {
 		name, ns, ann, owners = pod.Name, pod.Namespace, pod.Annotations, pod.OwnerReferences
 	}
-	step("pod-lock+node-subnet-lock (Filter for the same pod name)")
+	step("pod-lock+node-subnet-lock(Filter-for-the-same-pod-name)")
 	probePod := &corev1.Pod{ObjectMeta: metav1.ObjectMeta{Name: name, Namespace: ns,
 		OwnerReferences: []metav1.OwnerReference{{Kind: "StatefulSet", Name: "fzprobe"}}}, Spec: eniPodSpec(true)}
 	_, _, _ = e.plugin.Filter(probePod, e.nodes[:3])
-	step("ipam-cache-rlock (ByPrefix(\"\"))")
+	step("ipam-cache-rlock(ByPrefix)")
 	ipam := e.plugin.GetIpam()
 	_, _ = ipam.ByPrefix("")
-	step("ipam-cache-lock (allocate+release of a scratch key)")
+	step("ipam-cache-lock(allocate+release-of-a-scratch-key)")
 	subnets, _ := ipam.NodeSubnetsByIPRanges(nil)
 	for _, s := range subnets.List() {
 		if _, ipnet, err := net.ParseCIDR(s); err == nil && s != "10.252.0.0/24" {
@@ -299,7 +305,7 @@ func (e *ipamEnv) probe(pod *corev1.Pod, step func(string)) {
 		}
 	}
 	_, _, _ = ipam.ReleaseIPs(map[string]string{"0.0.0.0": "fzprobe_scratch"})
-	step("dp-pool-lock (LockDpPool of the pod's pool prefix)")
+	step("dp-pool-lock(LockDpPool-of-the-pod-pool-prefix)")
 	prefix := "dp_ns1_app_"
 	if pod != nil {
 		k := &corev1.Pod{ObjectMeta: metav1.ObjectMeta{Name: name, Namespace: ns, Annotations: ann, OwnerReferences: owners}}
